@@ -68,6 +68,21 @@ func c07reserved(c *mon.Ctx) {
 		} else if len(p.Annotations) != 1 || string(p.Annotations[0].Key) != kw || string(p.Annotations[0].Value) != "v" {
 			w.Violation("wrong tree: annotation with a reserved word as key", fmt.Sprintf("`%s` parsed to annotations %v", at, p.Annotations), map[string]any{"text": at})
 		}
+		// ... and a duplicate annotation is a duplicate whatever kind of word its key is
+		for _, dup := range []string{
+			fmt.Sprintf("@%s(\"a\") @%s(\"b\") permit(principal, action, resource);", kw, kw),
+			fmt.Sprintf("@%s(\"a\") @other(\"x\") @%s(\"a\") forbid(principal, action, resource);", kw, kw),
+			fmt.Sprintf("@%s @%s permit(principal, action, resource);", kw, kw),
+		} {
+			_, err, pan := parseOne(dup)
+			w.Evals(1)
+			if pan != "" {
+				w.Violation("parser panics", "UnmarshalCedar panicked: "+pan, map[string]any{"text": dup})
+			} else if err == nil {
+				w.Violation("text outside the grammar accepted: duplicate annotation with the reserved word `"+kw+"` as key", fmt.Sprintf("`%s` is accepted", dup), map[string]any{"text": dup})
+				break
+			}
+		}
 	})
 }
 
@@ -110,7 +125,12 @@ func c07bulk(c *mon.Ctx) {
 		var bodies []ast.IsNode // the k parsed copies of the template
 		switch shape {
 		case "policies in one document", "policies in one policy set document", "policies in one decoder stream":
-			doc := strings.Repeat(one+"\n", k)
+			// every policy carries its position in the document as an annotation
+			var db strings.Builder
+			for j := 0; j < k; j++ {
+				fmt.Fprintf(&db, "@n(\"%d\") %s\n", j, one)
+			}
+			doc := db.String()
 			var pols []*cedar.Policy
 			var perr error
 			func() {
@@ -161,6 +181,10 @@ func c07bulk(c *mon.Ctx) {
 					return
 				}
 				a := (*ast.Policy)(p.AST())
+				if len(a.Annotations) != 1 || string(a.Annotations[0].Key) != "n" || string(a.Annotations[0].Value) != fmt.Sprint(j) {
+					fail("wrong tree: large flat input", fmt.Sprintf("the policy at position %d of the document comes back with annotations %v (document order lost)", j, a.Annotations))
+					return
+				}
 				if len(a.Conditions) != 1 {
 					fail("wrong tree: large flat input", fmt.Sprintf("policy %d has %d conditions", j, len(a.Conditions)))
 					return
